@@ -14,7 +14,17 @@ package main
 //   hasDefaultCaseValues  the values assigned to the variable of the extra disjunct;
 //   watcherSetsDone / rereadsDoneAfterFinish / ctxErrBeforePanic  the shape of runFunc;
 //   stopSetsDone  vm.stop stores 1 into env.done;
-//   blockingCallsOutsideRun  Recv/Send/Select calls of the package outside (*VM).run.
+//   blockingCallsOutsideRun  Recv/Send/Select calls of the package outside (*VM).run;
+//   doneCheckSites  every place of (*VM).run where the flag test
+//                 `if done != nil && atomic.LoadInt32(&vm.env.done) == 1 { return vm.stop() }` stands:
+//                 "loop-head" (first statement of the instruction loop), "OpX" (first statement of the
+//                 clause of OpX, so executed on every dispatch of OpX), "inside OpX" (anywhere else in
+//                 that clause: conditional, counts for nothing);
+//   opFlow        for every clause of the instruction switch how it moves the program counter: does it
+//                 assign vm.pc (`vm.pc = …`), only advance it (`vm.pc++`, `vm.pc += k`), change vm.fn,
+//                 run a nested activation of the loop (`vm.run()`), leave the activation (a `return`
+//                 other than `return vm.stop()`), call vm.nextCall(); and whether the clause starts
+//                 with the flag test.
 //
 // A shape that is different yields `false` in the corresponding fact (so that the Lean obligation
 // fails and names it); only a missing function is an error.
@@ -302,6 +312,94 @@ func genBlocking(repo string) (string, error) {
 	}
 	sort.Slice(ops, func(i, j int) bool { return ops[i].op < ops[j].op })
 
+	// where the flag test stands, and how every clause moves the program counter
+	const flagTest = "if done != nil && atomic.LoadInt32(&vm.env.done) == 1 { return vm.stop() }"
+	isFlagTest := func(st ast.Stmt) bool {
+		ifs, ok := st.(*ast.IfStmt)
+		return ok && ifs.Else == nil && ifs.Init == nil && blText(fset, ifs) == flagTest
+	}
+	var sites []string
+	if loopHead {
+		sites = append(sites, "loop-head")
+	}
+	for i, st := range loop.Body.List {
+		if i > 0 && isFlagTest(st) {
+			sites = append(sites, "inside the loop, after "+fmt.Sprint(i)+" statements")
+		}
+	}
+	type flow struct {
+		op                                                        string
+		setsPC, bumpsPC, setsFn, nested, leaves, nextCall, checks bool
+	}
+	var flows []flow
+	for _, cl := range sw.Body.List {
+		cc := cl.(*ast.CaseClause)
+		var names []string
+		for _, e := range cc.List {
+			t := blText(fset, e)
+			if !strings.HasPrefix(t, "-") {
+				names = append(names, t)
+			}
+		}
+		if len(names) == 0 {
+			continue // default clause
+		}
+		f := flow{op: strings.Join(names, "|")}
+		for i, st := range cc.Body {
+			if isFlagTest(st) {
+				if i == 0 {
+					f.checks = true
+					sites = append(sites, f.op)
+				} else {
+					sites = append(sites, "inside "+f.op)
+				}
+			}
+			ast.Inspect(st, func(n ast.Node) bool {
+				switch x := n.(type) {
+				case *ast.IfStmt:
+					if x != st && isFlagTest(x) {
+						sites = append(sites, "inside "+f.op)
+					}
+				case *ast.AssignStmt:
+					for _, l := range x.Lhs {
+						switch blText(fset, l) {
+						case "vm.pc":
+							if x.Tok == token.ASSIGN {
+								f.setsPC = true
+							} else {
+								f.bumpsPC = true
+							}
+						case "vm.fn":
+							f.setsFn = true
+						}
+					}
+				case *ast.IncDecStmt:
+					if blText(fset, x.X) == "vm.pc" {
+						if x.Tok == token.INC {
+							f.bumpsPC = true
+						} else {
+							f.setsPC = true
+						}
+					}
+				case *ast.CallExpr:
+					switch blText(fset, x.Fun) {
+					case "vm.run":
+						f.nested = true
+					case "vm.nextCall":
+						f.nextCall = true
+					}
+				case *ast.ReturnStmt:
+					if blText(fset, x) != "return vm.stop()" {
+						f.leaves = true
+					}
+				}
+				return true
+			})
+		}
+		flows = append(flows, f)
+	}
+	sort.Slice(flows, func(i, j int) bool { return flows[i].op < flows[j].op })
+
 	// the values assigned to the extra disjunct's variable(s)
 	var extraVals []string
 	for ex := range extras {
@@ -411,6 +509,24 @@ func genBlocking(repo string) (string, error) {
 	fmt.Fprintf(&b, "/-- the re-read (and the watcher) exist for every VM of a run with a cancellable context — the main one, those started by\n`go`, those running a function value called by native code: `stop` is created exactly when `vm.env.doneChan != nil` and the\nepilogue is guarded by `stop != nil` only (in particular not by vm.main) -/\ndef epilogueForEveryVM : Bool := %v\n\n", epilogueEvery)
 	fmt.Fprintf(&b, "/-- that re-read comes before `if vm.panic != nil` (the context's error wins over an unrecovered panic) -/\ndef ctxErrBeforePanic : Bool := %v\n\n", ctxBeforePanic)
 	fmt.Fprintf(&b, "/-- vm.stop stores 1 into env.done (every VM of the run sees it at its next loop head) -/\ndef stopSetsDone : Bool := %v\n\n", stopSets)
+	b.WriteString("/-- every place of (*VM).run where `if done != nil && atomic.LoadInt32(&vm.env.done) == 1 { return vm.stop() }` stands:\n\"loop-head\" = first statement of the instruction loop; \"OpX\" = first statement of the clause of OpX; anything else does not count -/\ndef doneCheckSites : List String := [")
+	for i, v := range sites {
+		if i > 0 {
+			b.WriteString(", ")
+		}
+		b.WriteString(swLeanStr(v))
+	}
+	b.WriteString("]\n\n")
+	b.WriteString("/-- how the clause of an opcode in the instruction switch moves the program counter: `vm.pc = …`; only `vm.pc++` / `vm.pc += k`;\nan assignment to vm.fn; a nested activation `vm.run()`; a `return` other than `return vm.stop()`; a call of vm.nextCall();\nand whether the clause starts with the flag test -/\n")
+	b.WriteString("structure OpFlow where\n  op : String\n  setsPC : Bool\n  bumpsPC : Bool\n  setsFn : Bool\n  nested : Bool\n  leaves : Bool\n  nextCall : Bool\n  checksDone : Bool\nderiving DecidableEq, Repr\n\n")
+	b.WriteString("def opFlow : List OpFlow := [")
+	for i, f := range flows {
+		if i > 0 {
+			b.WriteString(",")
+		}
+		fmt.Fprintf(&b, "\n  ⟨%s, %v, %v, %v, %v, %v, %v, %v⟩", swLeanStr(f.op), f.setsPC, f.bumpsPC, f.setsFn, f.nested, f.leaves, f.nextCall, f.checks)
+	}
+	b.WriteString("]\n\n")
 	b.WriteString("/-- Recv/Send/reflect.Select calls of internal/runtime outside (*VM).run -/\ndef blockingCallsOutsideRun : List String := [")
 	for i, v := range outside {
 		if i > 0 {
